@@ -368,6 +368,42 @@ impl Property for C06 {
                 *have.entry(c.clone()).or_insert(0) += 1;
             }
         }
+        // how many coefficients ARE stream elements (multiset intersection): a dealer that converts stream bytes
+        // another way shares none with `want`; one that reads the stream as Fp::random does but skips, repeats or
+        // replaces a draw shares most
+        // (only values of at least 2^96 count: 0, 1 and other small scripted values come out the same under
+        // more than one way of converting bytes to elements)
+        let big = BigUint::from(1u8) << 96;
+        let common: i64 = want.iter().filter(|(k, _)| **k >= big).map(|(k, n)| (*n).min(*have.get(k).unwrap_or(&0))).sum();
+        if want == have && t >= 3 {
+            // The multisets agree, so the dealer reads the stream the way this check does, polynomial after
+            // polynomial. A zero that the stream yielded strictly INSIDE a polynomial's run of t-1 draws (neither
+            // its first nor its last draw, whichever end is the leading coefficient) is a zero inner coefficient
+            // and must not lower the degree: a dealer that drops such a draw instead of using it hands out a
+            // polynomial of degree t-2.
+            for (j, co) in polys.iter().enumerate() {
+                let chunk = &elems[j * (t - 1)..(j + 1) * (t - 1)];
+                let mut a: Vec<&BigUint> = chunk.iter().collect();
+                let mut b: Vec<&BigUint> = co[1..].iter().collect();
+                a.sort();
+                b.sort();
+                if a != b {
+                    continue; // draws are not consumed polynomial by polynomial: no statement
+                }
+                let ends_nonzero = !chunk[0].is_zero() && !chunk[t - 2].is_zero();
+                if ends_nonzero && shamir_big::degree(co).unwrap_or(0) < t - 1 {
+                    return Err(Violation::new("c06.eval", "degree_too_low", format!("polynomial {} has degree {} < t-1 = {} although neither the first nor the last of its {} draws was zero (a zero drawn in between is an inner coefficient, not a reason to shorten the polynomial)", j, shamir_big::degree(co).unwrap_or(0), t - 1, t - 1)));
+                }
+            }
+        }
+        if want != have && common > 0 && (t - 1) * k >= 2 {
+            let n_have: i64 = have.values().sum();
+            return Err(Violation::new(
+                "c06.coeff_source",
+                if n_have as usize != elems.len() { "draw_count" } else { "draw_values" },
+                format!("{} of the {} non-constant coefficients are elements the supplied random source yielded during dealing, the others are not (the source yielded {} elements; t={}, k={}): a draw was skipped, replaced or used twice", common, n_have, elems.len(), t, k),
+            ));
+        }
         if want != have {
             let n_have: i64 = have.values().sum();
             // The comparison above reads the stream through Fp::random. A dealer that turns stream bytes
